@@ -381,6 +381,19 @@ Proof.
   - apply IH. intros i Hi. apply U. lia.
 Qed.
 
+(* the same on the loop function of the model: whatever index n_j the inner loop of gmres.hpp stops at
+   (iteration limit, restart length or convergence test), the estimate it holds is bounded by norm_r *)
+Corollary gm_inner_estimate_le_initial maxiter M eps fuel w it :
+  let r := gm_inner body maxiter M eps fuel w 0 it in
+  (forall l, 0 < l -> g_s w l = s0) ->
+  (forall i, i < n_j r -> unit_rot (g_cs (gm_iter (SS i) w) i) (g_sn (gm_iter (SS i) w) i)) ->
+  0 < n_j r /\ ole (sq (g_s (n_ws r) (n_j r))) (sq (g_s w 0)).
+Proof.
+  intros r Z U.
+  destruct (gm_inner_is_iter maxiter M eps fuel w w 0 it eq_refl) as (L & E). fold r in L, E.
+  split; [exact L|]. rewrite E. apply gm_estimate_le_initial; assumption.
+Qed.
+
 End Inner.
 
 (* ================================================================== *)
